@@ -142,7 +142,53 @@ def t_params(a: ast.arguments) -> list:
     return out
 
 
+def dotted(e: ast.expr) -> str | None:
+    if isinstance(e, ast.Name):
+        return e.id
+    if isinstance(e, ast.Attribute):
+        b = dotted(e.value)
+        return None if b is None else b + "." + e.attr
+    return None
+
+
+def t_ty(e: ast.expr) -> list:
+    d = dotted(e)
+    if d is not None:
+        if not ascii_ok(d):
+            raise Outside("non-ascii name")
+        return ["TyName", P(e), d]
+    if isinstance(e, ast.Constant) and e.value is None:
+        return ["TyNone", P(e)]
+    if isinstance(e, ast.Subscript):
+        b = dotted(e.value)
+        if b is None or not ascii_ok(b):
+            raise Outside("type: subscript of a non-name")
+        if isinstance(e.slice, ast.Tuple):
+            if getattr(e.slice, "lineno", None) is None:
+                raise Outside("type: odd slice")
+            return ["TySub", P(e), b, True, [t_ty(x) for x in e.slice.elts]]
+        return ["TySub", P(e), b, False, [t_ty(e.slice)]]
+    if isinstance(e, ast.BinOp) and isinstance(e.op, ast.BitOr):
+        return ["TyUnion", P(e), t_ty(e.left), t_ty(e.right)]
+    raise Outside("type: " + type(e).__name__)
+
+
+def m_ty(t: Any) -> list:
+    from mypy import types as T
+    if type(t) is T.UnboundType:
+        if t.optional or t.original_str_expr is not None or t.original_str_fallback is not None:
+            raise Outside("type: optional/str")
+        return ["MUnbound", MP(t), t.name, [m_ty(a) for a in t.args], bool(t.empty_tuple_index)]
+    if type(t) is T.UnionType:
+        if not (t.uses_pep604_syntax and t.is_evaluated) or t.original_str_expr is not None:
+            raise Outside("type: union flags")
+        return ["MUnion", MP(t), [m_ty(a) for a in t.items]]
+    raise Outside("type node " + type(t).__name__)
+
+
 def t_stmt(s: ast.stmt) -> list:
+    if isinstance(s, ast.AnnAssign):
+        return ["SAnnAssign", P(s), t_expr(s.target), t_ty(s.annotation), t_oe(s.value)]
     if isinstance(s, ast.ClassDef):
         if getattr(s, "type_params", None):
             raise Outside("generic class")
@@ -366,6 +412,14 @@ def m_stmt(s: Any) -> list:
                 [m_oe(x) for x in s.types], [m_block(b) for b in s.handlers], m_oblock(s.else_body), m_oblock(s.finally_body)]
     if t is N.ExpressionStmt:
         return ["MExprStmt", MP(s), m_expr(s.expr)]
+    if t is N.AssignmentStmt and s.type is not None:
+        assert s.unanalyzed_type is s.type
+        if type(s.rvalue) is N.TempNode:
+            assert s.rvalue.no_rhs
+            rv = ["MTemp", MP(s.rvalue)]
+        else:
+            rv = m_expr(s.rvalue)
+        return ["MAnnAssign", MP(s), [m_expr(x) for x in s.lvalues], rv, m_ty(s.type), bool(s.new_syntax)]
     if t is N.AssignmentStmt:
         if s.type is not None or s.unanalyzed_type is not None:
             raise Outside("annotated assignment")
@@ -477,10 +531,10 @@ def one(src: str, ver: tuple[int, int]) -> dict[str, Any]:
 
 def run(task: dict[str, Any]) -> dict[str, Any]:
     ver = tuple(task.get("ver", [3, 12]))
-    from mypy import cache, nodes
+    from mypy import cache, nodes, types
     tags = {}
     for nm in task.get("tag_names", []):
-        tags[nm] = int(getattr(nodes, nm) if hasattr(nodes, nm) else getattr(cache, nm))
+        tags[nm] = int(getattr(nodes, nm) if hasattr(nodes, nm) else getattr(cache, nm) if hasattr(cache, nm) else getattr(types, nm))
     return {"results": [one(s, ver) for s in task["sources"]], "tags": tags}  # type: ignore[arg-type]
 
 
